@@ -303,6 +303,7 @@ pub fn inputs(quick: bool) -> Vec<String> {
         v.extend(family_c(false));
         v.extend(family_d(false));
         v.extend(family_e());
+        v.extend(family_k());
     }
     v
 }
@@ -326,7 +327,7 @@ pub fn run(mode: Mode, run: &Run) {
     run.set_extra("inputs_generated", json!(total));
     run.set_extra("windows", json!([GW, GW + 3]));
     if mode == Mode::C07 {
-        run.set_rule("every formula of families A-G, I (capture pressure: defined variables over re-binding quantifiers) and J (fresh-name pressure: every subset of the first fresh-name candidates already taken) (atoms, F_1, all quantifier prefixes over F_1, quantified 3-conjunctions, two-level quantifier shapes, depth-2 trees, rewrite-targeted patterns, translation shapes) x 3 portfolios x 3 strategies x all free-variable assignments over the active set x all interpretations; non-trivial = (formula, portfolio, strategy) whose output differs syntactically from its input, counted by distinct output");
+        run.set_rule("every formula of families A-G, I (capture pressure: defined variables over re-binding quantifiers) and J (fresh-name pressure: every subset of the first fresh-name candidates already taken) (thorough: + K, complete connective depth 2 over five atoms / depth 3 over two atoms) (atoms, F_1, all quantifier prefixes over F_1, quantified 3-conjunctions, two-level quantifier shapes, depth-2 trees, rewrite-targeted patterns, translation shapes) x 3 portfolios x 3 strategies x all free-variable assignments over the active set x all interpretations; non-trivial = (formula, portfolio, strategy) whose output differs syntactically from its input, counted by distinct output");
     } else {
         run.set_rule("every formula of families A-G, I, J and the deep chains of family H (depth <= 24, thorough 40, every level needing its own pass) x 3 portfolios: fixpoint iteration re-run pass by pass with cycle detection, then the real apply_fixpoint compared and re-applied; non-trivial = distinct number-of-passes/outputs of formulas that changed");
     }
